@@ -154,6 +154,26 @@ func exec09(c *c09Case) outcome {
 		return resOf(tensor.Ones(c.dimsArg("dims"), nil))
 	case "eye":
 		return resOf(tensor.Eye(c.num("n"), nil))
+	case "ctor-conf":
+		conf := &tensor.Config{Device: tensor.Device(c.num("device")), GradTrack: c.boolean("track")}
+		var o outcome
+		switch c.str("ctor") {
+		case "full":
+			o = resOf(tensor.Full([]int{2, 3}, 1.5, conf))
+		case "zeros":
+			o = resOf(tensor.Zeros([]int{2, 3}, conf))
+		case "ones":
+			o = resOf(tensor.Ones([]int{2, 3}, conf))
+		case "eye":
+			o = resOf(tensor.Eye(2, conf))
+		case "randu":
+			o = resOf(tensor.RandU([]int{2, 3}, 0, 1, conf))
+		case "randn":
+			o = resOf(tensor.RandN([]int{2, 3}, 0, 1, conf))
+		case "tensorof":
+			o = resOf(tensor.TensorOf([]float64{1, 2}, conf))
+		}
+		return o
 	case "randu":
 		return resOf(tensor.RandU(c.dimsArg("dims"), float64(c.num("lo")), float64(c.num("hi")), nil))
 	case "randn":
